@@ -36,6 +36,8 @@ type Engine struct {
 	trustedCs map[string]map[string]bool // unit -> contracts assumed (callee)
 	intrUsed  map[string]map[string]bool
 	notes     []string
+	ent       *entSchema
+	unitAssume map[string]map[string]bool
 }
 
 // Unit is one function under contract being verified.
@@ -75,6 +77,10 @@ type Obligation struct {
 	Tried   []SolveResult
 	Vacuity bool // cover query: expected sat
 	Dup     int
+	Prefix  string
+	goalT   *Term
+	Parts   []*Obligation // a combined obligation: solved individually only if the conjunction fails
+	Skip    bool
 }
 
 func (e *Engine) typeID(s string) int {
@@ -99,6 +105,8 @@ func (e *Engine) note(unit, kind, what string) {
 		m = e.trustedCs
 	case "intrinsic":
 		m = e.intrUsed
+	case "assumption":
+		m = e.unitAssume
 	}
 	if m[unit] == nil {
 		m[unit] = map[string]bool{}
@@ -325,11 +333,44 @@ func (e *Engine) addObligation(st *State, u *Unit, kind, label, site string, goa
 		// trivially true: still counted, with a trivial script
 	}
 	ob := &Obligation{Name: name, Unit: u.name, Kind: kind, Props: props, Trace: append([]string(nil), st.trace...), Goal: goal.S, Src: src, Vacuity: vacuity}
-	ob.Script = st.script(goal)
+	ob.goalT = goal
+	if st.batching > 0 {
+		st.pending = append(st.pending, ob)
+		return
+	}
+	ob.Prefix = st.scriptPrefix()
+	ob.Script = ob.Prefix + scriptGoal(goal)
 	e.obls = append(e.obls, ob)
 }
 
-func (st *State) script(goal *Term) string {
+// beginBatch/endBatch: obligations generated in between share one assumption prefix (computed at the
+// end, so that declarations introduced while elaborating later goals are visible to all of them).
+func (st *State) beginBatch() { st.batching++ }
+func (st *State) endBatch() {
+	st.batching--
+	if st.batching > 0 || len(st.pending) == 0 {
+		return
+	}
+	prefix := st.scriptPrefix()
+	for _, ob := range st.pending {
+		ob.Prefix = prefix
+		ob.Script = prefix + scriptGoal(ob.goalT)
+		for _, p := range ob.Parts {
+			p.Prefix = prefix
+			p.Script = prefix + scriptGoal(p.goalT)
+		}
+		st.e.obls = append(st.e.obls, ob)
+	}
+	st.pending = nil
+}
+
+func scriptGoal(goal *Term) string {
+	return "(assert (not " + goal.S + "))\n(check-sat)\n(get-model)\n"
+}
+
+func (st *State) script(goal *Term) string { return st.scriptPrefix() + scriptGoal(goal) }
+
+func (st *State) scriptPrefix() string {
 	var b strings.Builder
 	b.WriteString("(set-option :smt.mbqi true)\n")
 	b.WriteString("(set-logic ALL)\n")
@@ -353,8 +394,6 @@ func (st *State) script(goal *Term) string {
 	for _, a := range st.asserts {
 		b.WriteString("(assert " + a.S + ")\n")
 	}
-	b.WriteString("(assert (not " + goal.S + "))\n")
-	b.WriteString("(check-sat)\n(get-model)\n")
 	return b.String()
 }
 
@@ -374,6 +413,8 @@ func (st *State) checkEnsures(fr *Frame, results []SVal) {
 		}
 	}
 	env := st.unitEnv(fr, results)
+	st.beginBatch()
+	defer st.endBatch()
 	for i, c := range u.c.Ensures {
 		label := c.Label
 		if label == "" {
@@ -383,6 +424,8 @@ func (st *State) checkEnsures(fr *Frame, results []SVal) {
 		st.e.addObligation(st, u, "ensures", label, site, g, st.propsFor(c, u.c.Props), c.Src, false)
 	}
 	if u.c.HasMods {
+		var goals []*Term
+		var parts []*Obligation
 		for _, k := range st.touchedKeys() {
 			if matchKey(u.c.Modifies, k) {
 				continue
@@ -397,7 +440,16 @@ func (st *State) checkEnsures(fr *Frame, results []SVal) {
 			} else {
 				g = Eq(cur, pre)
 			}
-			st.e.addObligation(st, u, "frame", displayKey(k), site, g, u.c.Props, "modifies", false)
+			goals = append(goals, g)
+			name := fmt.Sprintf("%s#%s:%s@%s", u.name, "frame", displayKey(k), site)
+			parts = append(parts, &Obligation{Name: name, Unit: u.name, Kind: "frame", Props: u.c.Props, Trace: append([]string(nil), st.trace...), Goal: g.S, goalT: g, Src: "modifies"})
+		}
+		if len(goals) == 1 {
+			st.pending = append(st.pending, parts[0])
+		} else if len(goals) > 1 {
+			all := And(goals...)
+			st.e.addObligation(st, u, "frame", fmt.Sprintf("all-%d-untouched-arrays", len(goals)), site, all, u.c.Props, "modifies", false)
+			st.pending[len(st.pending)-1].Parts = parts
 		}
 	}
 	u.paths++
@@ -618,6 +670,8 @@ func (st *State) checkInvariant(fr *Frame, li *loopInfo, phase string) {
 		return
 	}
 	env := st.loopEnv(fr, li)
+	st.beginBatch()
+	defer st.endBatch()
 	for i, c := range li.spec.Invs {
 		label := c.Label
 		if label == "" {
